@@ -53,7 +53,7 @@ ASSUMPTIONS = [
     "streams never iterated and garbage-collection timing of abandoned generators are unspecified (the harness closes abandoned streams after taking its probes, before judging completion)",
     "a stream is consumed by one task from first item to end",
 ]
-MINIMUMS = {"monitor:items": 300, "monitor:body-state": 1000, "monitor:consumer-between": 500, "monitor:consumer-after": 300, "monitor:completion": 300, "creation_differs_from_consumption": 200, "consumed_while_cancelling": 60, "monitor:stream-owns-spawned": 100}
+MINIMUMS = {"monitor:items": 300, "monitor:body-state": 1000, "monitor:consumer-between": 500, "monitor:consumer-after": 300, "monitor:completion": 300, "creation_differs_from_consumption": 200, "consumed_while_cancelling": 60, "monitor:stream-owns-spawned": 100, "streams_created_in_the_context_of_a_left_scope": 12, "calls_of_callables_with_another_advertised_signature": 1}
 JOBS = {"quick": 4, "thorough": 8}
 LEVEL_TEXT = (
     "The product of generator shapes (0-5 items, end/raise, yields inside a nested scope, metric records, an inner stream) x 4 consumption places x full/break/aclose modes is "
